@@ -48,8 +48,9 @@ way those servers are documented to behave for the statement forms SQLAlchemy re
 are judged.  This exercises the *implicit* (autoincrement) sentinel sort, which SQLite
 never takes.
 
-Per-row bound upsert (``ups_rowbind``): executemany ``ON CONFLICT DO UPDATE SET col =
-bindparam()`` with a different value per parameter set over a mix of conflicting and new rows,
+Per-row bound upsert (``ups_rowbind``): executemany ``ON CONFLICT DO UPDATE`` with per-row
+``bindparam()``s in SET, in the DO UPDATE WHERE (each row carries its own update / skip verdict)
+or in both, i.e. a different value per parameter set over a mix of conflicting and new rows,
 with / without RETURNING, on the stock engines and on engines whose dialect has
 ``use_insertmanyvalues_wo_returning`` switched on (35% of all cases run on such an engine);
 at the DBAPI boundary each parameter set must travel with its own SET value, and every
@@ -77,8 +78,8 @@ META = {
     "soft_s": {"quick": 50, "thorough": 800},
     "exhaustive": {"quick": False, "thorough": False},
     "require": ["sorted_batches_permuted", "batches_permuted", "rows_checked_in_order", "fake_sorted_batches_permuted",
-                "orm_objects_checked", "orm_graph_batches_permuted", "upsert_rowbind_rows_wo_returning",
-                "fake_upsert_deliveries"],
+                "orm_objects_checked", "orm_graph_batches_permuted", "upsert_rowbind_rows_wo_returning", "upsert_where_bind_rows",
+                "fake_upsert_deliveries", "fake_upsert_where_bind_deliveries"],
     "assumptions": ["a backend may deliver RETURNING rows of one statement in any order",
                     "fabricated PG/MariaDB/MSSQL rows follow the ordering guarantees SQLAlchemy documents relying on"],
 }
@@ -475,14 +476,23 @@ def rowbind_case(ctx, sa, sqlite_dialect, spy, perm, eng, path, t, style, ps, so
         for kk in ("id", "a"):
             if kk in d:
                 d[kk] += 100000        # fresh primary keys: the only violated constraint is UNIQUE(p)
-        d["bp"] = "bp-" + d["p"]
+    # where the per-row bound parameters sit: in SET, in the DO UPDATE WHERE, or in both
+    binds = rng.choice(["set", "where", "both"])
+    for d in second:
+        if binds != "where":
+            d["bp"] = "bp-" + d["p"]
+        if binds != "set":
+            d["wp"] = ("go:" if rng.random() < 0.6 else "no:") + d["p"]   # this row's own verdict
     rng.shuffle(second)
     ret = rng.choice(["none", "none", "returning"])
-    desc = {"style": style, "ps": ps, "form": "ups_rowbind", "sort": sort, "n": n, "new": n_new, "page": page,
-            "how": page_how, "wo_returning": wo, "ret": ret}
+    desc = {"style": style, "ps": ps, "form": "ups_rowbind", "binds": binds, "sort": sort, "n": n, "new": n_new,
+            "page": page, "how": page_how, "wo_returning": wo, "ret": ret}
     opts = {"insertmanyvalues_page_size": page} if page_how in ("stmt", "conn") else {}
     stmt = sqlite_dialect.insert(t)
-    stmt = stmt.on_conflict_do_update(index_elements=[t.c.p], set_={"d_srv": sa.bindparam("bp")})
+    stmt = stmt.on_conflict_do_update(
+        index_elements=[t.c.p],
+        set_={"d_srv": sa.bindparam("bp") if binds != "where" else stmt.excluded.p},
+        where=(sa.bindparam("wp") == sa.literal("go:") + t.c.p) if binds != "set" else None)
     if ret == "returning":
         stmt = stmt.returning(t.c.p, t.c.d_srv, sort_by_parameter_order=sort)
     perm.reset_case()
@@ -500,21 +510,27 @@ def rowbind_case(ctx, sa, sqlite_dialect, spy, perm, eng, path, t, style, ps, so
         ctx.violation(f"insert-raised-{type(e).__name__}", f"{desc} raised {e!r}"[:600], desc)
         ctx.case(desc, nontrivial=False)
         return
-    # every parameter set reaches the DBAPI exactly once, together with its own SET value
+    # every parameter set reaches the DBAPI exactly once, together with its own SET / WHERE values
     seen = {}
+    by_payload = {d["p"]: d for d in second}
     for e in spy.since(mark, ("execute", "executemany")):
         if not (e.sql or "").lstrip().startswith("INSERT"):
             continue
         deliveries = e.params if e.kind == "executemany" else [e.params]
         for dl in deliveries:
             ps_in = payloads_in(dl, prefix)
-            bps = set(payloads_in(dl, "bp-" + prefix))
+            strings = set(payloads_in(dl, ""))
             for p in ps_in:
                 seen[p] = seen.get(p, 0) + 1
-                if "bp-" + p not in bps:
+                own = by_payload[p]
+                if "bp" in own and own["bp"] not in strings:
                     ctx.violation("upsert-set-value-not-delivered-with-its-parameter-set",
                                   f"{desc}: payload {p} was handed to the driver in a statement that carries the SET "
-                                  f"values {sorted(bps)[:3]} only", desc)
+                                  f"values {sorted(x for x in strings if x.startswith('bp-'))[:3]} only", desc)
+                if "wp" in own and own["wp"] not in strings:
+                    ctx.violation("upsert-where-value-not-delivered-with-its-parameter-set",
+                                  f"{desc}: payload {p} was handed to the driver in a statement that carries the WHERE "
+                                  f"values {sorted(x for x in strings if x[:3] in ('go:', 'no:'))[:3]} only", desc)
     want = [d["p"] for d in second]
     if sorted(seen) != sorted(want) or any(v != 1 for v in seen.values()):
         ctx.violation("batch-accounting", f"{desc}: parameter sets delivered {sorted(seen.items())[:6]}", desc)
@@ -525,22 +541,41 @@ def rowbind_case(ctx, sa, sqlite_dialect, spy, perm, eng, path, t, style, ps, so
         return
     old = {d["p"] for d in first}
     fresh_value = "srv" if t.c.d_srv.server_default is not None else None
-    exp = {p: ("bp-" + p if p in old else fresh_value) for p in want}
+    exp, affected = {}, []
+    for p in want:
+        own = by_payload[p]
+        if p not in old:
+            exp[p] = fresh_value                    # new row: inserted
+            affected.append(p)
+        elif own.get("wp", "go:").startswith("go:"):
+            exp[p] = own.get("bp", p)               # conflicting row, its own WHERE says update
+            affected.append(p)
+        else:
+            exp[p] = fresh_value                    # its own WHERE says leave the row alone
     wrong = {p: (stored[p]["d_srv"], exp[p]) for p in want if stored[p]["d_srv"] != exp[p]}
+    if binds != "set":
+        ctx.count("upsert_where_bind_rows", len(want))
     ctx.count("upsert_rowbind_rows", len(want))
     if wo:
         ctx.count("upsert_rowbind_rows_wo_returning", len(want))
-    if wrong:
+    decision_wrong = {p for p in wrong if p in old and (stored[p]["d_srv"] == fresh_value) != (exp[p] == fresh_value)}
+    if decision_wrong:
+        ctx.violation("upsert-where-per-row-bind-batched-with-first-row",
+                      f"{desc}: rows updated / skipped against their own WHERE parameter "
+                      f"{{payload: (stored, expected, wp)}} = "
+                      f"{ {p: (stored[p]['d_srv'], exp[p], by_payload[p].get('wp')) for p in sorted(decision_wrong)[:4]} }",
+                      {"desc": desc})
+    elif wrong:
         ctx.violation("upsert-set-value-from-other-parameter-set",
                       f"{desc}: {{payload: (stored, expected)}} = {dict(list(wrong.items())[:4])}",
                       {"desc": desc, "wrong": list(wrong.items())[:10]})
     elif returned is not None:
-        if sorted(returned) != sorted((p, exp[p]) for p in want):
-            ctx.violation("returning-multiset", f"{desc}: returned {returned[:5]}", desc)
+        if sorted(returned) != sorted((p, exp[p]) for p in affected):
+            ctx.violation("returning-multiset", f"{desc}: returned {returned[:5]} for affected rows {affected[:5]}", desc)
         elif sort:
             ctx.count("rows_checked_in_order", len(returned))
-            if [r[0] for r in returned] != want:
-                ctx.violation("returning-row-order", f"{desc}: returned {[r[0] for r in returned][:8]} for {want[:8]}", desc)
+            if [r[0] for r in returned] != affected:
+                ctx.violation("returning-row-order", f"{desc}: returned {[r[0] for r in returned][:8]} for {affected[:8]}", desc)
     ctx.seen("style_form_sort", f"{style}/ups_rowbind/{ret}/{wo}")
     ctx.case(desc, nontrivial=n >= 2)
 
@@ -956,15 +991,36 @@ def fake_upsert_part(ctx, sa, first):
         n = rng.randint(2, 9)
         page = rng.choice([1, 2, 3, 1000])
         prefix = f"u{ctx.shard}.{k}:"
-        params = [{"id": 10 + i, "p": f"{prefix}{i}", "v": f"v{i}", "bp": f"bp-{prefix}{i}"} for i in range(n)]
+        # per-row bound parameters in SET, in the DO UPDATE WHERE (PostgreSQL) or in both; with /
+        # without RETURNING (PostgreSQL; rows fabricated, unsorted)
+        binds = rng.choice(["set", "where", "both"]) if fam == "pg" else "set"
+        ret = fam == "pg" and rng.random() < 0.5
+        params = []
+        for i in range(n):
+            d = {"id": 10 + i, "p": f"{prefix}{i}", "v": f"v{i}"}
+            if binds != "where":
+                d["bp"] = f"bp-{prefix}{i}"
+            if binds != "set":
+                d["wp"] = f"wp-{prefix}{i}"
+            params.append(d)
         if fam == "pg":
-            stmt = pg.insert(t).on_conflict_do_update(index_elements=[t.c.p], set_={"v": sa.bindparam("bp")})
+            stmt = pg.insert(t)
+            stmt = stmt.on_conflict_do_update(
+                index_elements=[t.c.p], set_={"v": sa.bindparam("bp") if binds != "where" else stmt.excluded.v},
+                where=(t.c.v < sa.bindparam("wp")) if binds != "set" else None)
+            if ret:
+                stmt = stmt.returning(t.c.p, t.c.v)
         else:
             stmt = my.insert(t).on_duplicate_key_update(v=sa.bindparam("bp"))
         eng, fake = recording_engine(url)
+        if ret:
+            import random
+
+            fake.responder = Fabricator(random.Random(rng.random()), [c_.name for c_ in t.c], None)
         if force is not None:
             eng.dialect.use_insertmanyvalues_wo_returning = force
-        desc = {"fake": url.split(":")[0], "wo_returning": eng.dialect.use_insertmanyvalues_wo_returning, "n": n, "page": page}
+        desc = {"fake": url.split(":")[0], "wo_returning": eng.dialect.use_insertmanyvalues_wo_returning, "n": n, "page": page,
+                "binds": binds, "returning": ret}
         try:
             with warnings.catch_warnings():
                 warnings.simplefilter("ignore")
@@ -976,21 +1032,30 @@ def fake_upsert_part(ctx, sa, first):
             continue
         eng.dispose()
         seen = {}
-        bad = None
+        bad = badw = None
         for e in fake.log:
             if e.kind not in ("execute", "executemany") or not (e.sql or "").lstrip().startswith("INSERT"):
                 continue
             for dl in (e.params if e.kind == "executemany" else [e.params]):
                 ps_in = payloads_in(dl, prefix)
                 bps = set(payloads_in(dl, "bp-" + prefix))
+                wps = set(payloads_in(dl, "wp-" + prefix))
                 ctx.count("fake_upsert_deliveries")
+                if binds != "set":
+                    ctx.count("fake_upsert_where_bind_deliveries")
                 for p in ps_in:
                     seen[p] = seen.get(p, 0) + 1
-                    if "bp-" + p not in bps and bad is None:
+                    if binds != "where" and "bp-" + p not in bps and bad is None:
                         bad = (p, sorted(bps)[:3], e.sql[:200])
+                    if binds != "set" and "wp-" + p not in wps and badw is None:
+                        badw = (p, sorted(wps)[:3], e.sql[:260])
         if bad:
             ctx.violation("fake-upsert-set-value-not-delivered-with-its-parameter-set",
                           f"{desc}: parameter set {bad[0]} travels in a statement whose SET values are {bad[1]}: {bad[2]}", desc)
+        if badw:
+            ctx.violation("fake-upsert-where-value-not-delivered-with-its-parameter-set",
+                          f"{desc}: parameter set {badw[0]} travels in a statement whose DO UPDATE WHERE values are "
+                          f"{badw[1]}: {badw[2]}", desc)
         if sorted(seen) != sorted(d["p"] for d in params) or any(v != 1 for v in seen.values()):
             ctx.violation("fake-batch-accounting", f"{desc}: deliveries {sorted(seen.items())[:6]}", desc)
         ctx.seen("fake_upsert_dialect", f"{desc['fake']}/{desc['wo_returning']}")
